@@ -10,7 +10,7 @@ func init() {
 func pipeTier(c *Check) (K0, K1, K2 int, vers string) {
 	K0, K1, K2, vers = 3, 2, 2, "7.4,5.6"
 	if c.Tier == "thorough" {
-		K0, K1, K2, vers = 5, 3, 4, "7.4,7.2,5.6"
+		K0, K1, K2, vers = 4, 3, 3, "7.4,7.2,5.6"
 	}
 	return
 }
@@ -67,7 +67,7 @@ func runC02(c *Check) error {
 	c.Assumptions = append(c.Assumptions, stdAssumptions...)
 	c.ExploreNeeds(shortShapes("H_C02", K0, K1, K2, vers, 900_000), nil)
 	c.TriviaEmpty = true
-	return corpusShapesLex(c, "H_C02", tierEvery(c, 6, 2), tierEvery(c, 4, 1), true, 3_000_000)
+	return corpusShapesLex(c, "H_C02", tierEvery(c, 6, 3), tierEvery(c, 4, 2), true, 3_000_000)
 }
 
 func runC04(c *Check) error {
@@ -78,7 +78,7 @@ func runC04(c *Check) error {
 	stepJobs(c)
 	c.ExploreNeeds(shortShapes("H_C04", K0, K1, K2, vers, 900_000), nil)
 	c.TriviaEmpty = true
-	return corpusShapesLex(c, "H_C04", tierEvery(c, 6, 2), tierEvery(c, 4, 1), false, 3_000_000)
+	return corpusShapesLex(c, "H_C04", tierEvery(c, 6, 3), tierEvery(c, 4, 2), false, 3_000_000)
 }
 
 func runC06(c *Check) error {
